@@ -32,6 +32,7 @@ PreOdd == {[Empty EXCEPT !["by1"] = By, !["r1"] = NewObj(ChartMan("cB")["r1"]), 
 PreDeployedA == {[Empty EXCEPT !["by1"] = By, !["r1"] = NewObj(ChartMan("cA")["r1"]), !["r2"] = NewObj(ChartMan("cA")["r2"])]}
 PreOwn  == {[Empty EXCEPT !["by1"] = By, ![r] = Obj(own, "q")] :
                r \in {"r1", "r3", "r4"}, own \in {"none", "othername", "otherns", "partial", "me"}}
+           \cup {[Empty EXCEPT !["by1"] = By, !["h2"] = Obj(own, "q")] : own \in {"none", "othername"}}
            \cup PreBy
 PreHook == {[Empty EXCEPT !["by1"] = By], [Empty EXCEPT !["by1"] = By, !["h1"] = HookObj],
             [Empty EXCEPT !["by1"] = By, !["c1"] = HookObj]}
@@ -110,6 +111,9 @@ MenuOwnEnum == Installs({"cA", "cB"}, B, F, F, B, F) \cup Upgrades({"cB", "cL"},
 \* (cS: a CLUSTER-SCOPED custom object r4 in the manifest)
 MenuOwn == Installs({"cA", "cB", "cL", "cS"}, B, F, F, B, F) \cup Upgrades({"cB", "cC", "cL", "cA", "cS"}, F, F, {0}, F, B, F)
            \cup {[U("install", c) EXCEPT !.createNS = TRUE, !.takeown = t] : c \in {"cA", "cB"}, t \in B}
+           \* cH has a hook named h2 (deleted once it succeeded); cU ships an ordinary ConfigMap of that name: a
+           \* template that stopped being a hook is a resource "to be created" like any other
+           \cup Installs({"cH"}, F, F, B, F, F) \cup Upgrades({"cU"}, F, F, {0}, F, B, F)
            \cup Uninstalls(F, F, F) \cup Rollbacks({0}, {0}, F, F, F)
 \* hooks family (C12)
 Tests == {U("test", "none")}
